@@ -420,3 +420,6 @@ func FieldAccesses(f *ssa.Function, owners map[string]bool) []Access {
 	})
 	return out
 }
+
+// LockOp is the exported form of lockOp.
+func LockOp(c ssa.CallInstruction) (key, op string, ok bool) { return lockOp(c) }
